@@ -179,6 +179,17 @@ type ghostConverted struct {
 	N    int
 	Elem [1 << 20]ast.ChordOrRest
 	Out  [1 << 20]*input.Instance
+	Bad  [1 << 20]bool
+}
+
+// ghostWritten: how many times something was handed to a writer (defined by the interface contract of io.Writer below)
+type ghostWritten struct {
+	N int
+}
+
+// ghostClassified: whether the notation check refused a tree (defined by the assumed contract of Classify below)
+type ghostClassified struct {
+	Refused bool
 }
 
 //@ define hc(c) ghost(ghostConverted, c)
@@ -187,18 +198,29 @@ type ghostConverted struct {
 //@   allocs input.Instance, input.Chord, op.Scale, op.ScaleNote, note.Degree, op.Meta, map[string]string, op.BPM, op.DynamicSign, op.Meter, op.Key, []note.Value
 //@   requires c != nil
 //@   ensures err == nil ==> r != nil
-//@   ghostensures hc(c).N == old(hc(c).N) + 1 && hc(c).Elem == store(old(hc(c).Elem), old(hc(c).N), v) && hc(c).Out == store(old(hc(c).Out), old(hc(c).N), r)
+//@   ghostensures hc(c).N == old(hc(c).N) + 1 && hc(c).Elem == store(old(hc(c).Elem), old(hc(c).N), v) && hc(c).Out == store(old(hc(c).Out), old(hc(c).N), r) && hc(c).Bad == store(old(hc(c).Bad), old(hc(c).N), err != nil)
+
+//@ define hw(w) ghost(ghostWritten, w)
+//@ iface io.Writer.Write (w, p) returns (n, err)
+//@   modifies ghostWritten
+//@   ghostensures hw(w).N == old(hw(w).N) + 1
 
 // the notation check walks the tree through a goroutine and a channel (not modelled): assumed to have no effect
 //@ func astconv.ASTTypeClassifier.Classify returns (t, err)
 //@   trusted
-//@   pure
+//@   modifies ghostClassified
+//@   ghostensures ghost(ghostClassified, v).Refused == (err != nil)
 
 // convert: element i of the tree is the (N0+i)-th thing the converter is asked to convert - each element once,
 // in document order, so that a key change carried by an element reaches exactly the elements after it; the
 // instances collected for printing are the converter's answers in that order (loop invariant)
+// (C09) the writer is handed something at most once, and only after the notation check accepted the tree and every
+// element was converted without an error: a text that fails anywhere leaves nothing on the output
 //@ func textCmdArgs.convert returns (err)
-//@   modifies ghostConverted, astconv.SyllableChordConverter
+//@   modifies ghostConverted, ghostWritten, ghostClassified, astconv.SyllableChordConverter
+//@   ensures hw(w).N == old(hw(w).N) || hw(w).N == old(hw(w).N) + 1
+//@   ensures hw(w).N != old(hw(w).N) ==> !ghost(ghostClassified, args.tree).Refused && hc(converter).N == old(hc(converter).N) + len(args.tree.List) && forall(i, 0, len(args.tree.List), !hc(converter).Bad[old(hc(converter).N) + i])
+//@   ensures err == nil ==> hw(w).N == old(hw(w).N) + 1
 //@   allocs []*input.Instance, input.Instance, input.Chord, op.Scale, op.ScaleNote, note.Degree, op.Meta, map[string]string, op.BPM, op.DynamicSign, op.Meter, op.Key, []note.Value, []uint8, astconv.ASTTypeClassifier
 //@   requires args.tree != nil && converter != nil && w != nil
 //@   ensures err == nil ==> hc(converter).N == old(hc(converter).N) + len(args.tree.List)
@@ -207,7 +229,8 @@ type ghostConverted struct {
 //@   loop 0 modifies result, ghostConverted, astconv.SyllableChordConverter
 //@   loop 0 allocs input.Instance, input.Chord, op.Scale, op.ScaleNote, note.Degree, op.Meta, map[string]string, op.BPM, op.DynamicSign, op.Meter, op.Key, []note.Value
 //@   loop 0 invariant 0 - 1 <= rangeindex && rangeindex < len(args.tree.List) && len(result) == len(args.tree.List)
-//@   loop 0 invariant hc(converter).N == old(hc(converter).N) + rangeindex + 1
+//@   loop 0 invariant hc(converter).N == old(hc(converter).N) + rangeindex + 1 && hw(w).N == old(hw(w).N)
+//@   loop 0 invariant forall(i, 0, rangeindex + 1, !hc(converter).Bad[old(hc(converter).N) + i])
 //@   loop 0 invariant forall(i, 0, rangeindex + 1, hc(converter).Elem[old(hc(converter).N) + i] == args.tree.List[i] && result[i] == hc(converter).Out[old(hc(converter).N) + i])
 //@   loop 0 invariant forall(j, 0, old(hc(converter).N), hc(converter).Elem[j] == old(hc(converter).Elem[j]) && hc(converter).Out[j] == old(hc(converter).Out[j]))
 //@   loop 0 decreases len(args.tree.List) - rangeindex
